@@ -465,13 +465,12 @@ def run_scenario(sc: dict, drv: common.Driver | None) -> dict:
             rig.release(sc['up'][0])
         res['verdict'] = verdict
         after = rig.snapshot()
-        in_procs = bool(sc.get('fault')) and sc['fault']['kind'] == 'syntax' and sc['fault']['line'] < 4 * len(sc['new']['procs'])
         if model:
             mv = model.ask(R.model_load(told, code))
             if not res['disagreement'] and (mv == 'ok') != verdict:
                 res['disagreement'] = f'verdict: impl {verdict} model {mv}'
             if not res['disagreement']:
-                res['disagreement'] = diff_state('after reload', impl_state(rig), model.state(), skip_procs=in_procs)
+                res['disagreement'] = diff_state('after reload', impl_state(rig), model.state(), skip_procs=False)
         if midloop and model:
             # the rest of the interrupted iteration runs before the loop top sees the new definition
             a = sc['up'][0]
@@ -483,7 +482,7 @@ def run_scenario(sc: dict, drv: common.Driver | None) -> dict:
         if not sc.get('no_sessions'):
             follow_up(rig, model)
         if model and not res['disagreement']:
-            res['disagreement'] = diff_state('after follow-up', impl_state(rig), model.state(), skip_procs=in_procs)
+            res['disagreement'] = diff_state('after follow-up', impl_state(rig), model.state(), skip_procs=False)
         # ---- oracle --------------------------------------------------------------------------
         fclass = fault_class(sc)
         adj_off = any(not nb.get('adj', True) for nb in sc['old']['nbrs'] + sc['new']['nbrs'])
@@ -538,7 +537,7 @@ def run_scenario(sc: dict, drv: common.Driver | None) -> dict:
                 if p and p[2]:
                     model.drain(a0)
                 if not res['disagreement']:
-                    res['disagreement'] = diff_state('after api probe', impl_state(rig), model.state(), skip_procs=True)
+                    res['disagreement'] = diff_state('after api probe', impl_state(rig), model.state(), skip_procs=False)
             if sc.get('again'):
                 rig.write_file('\n'.join(R.config_lines(sc['new'])) + '\n')
                 again = rig.reload()
@@ -549,7 +548,7 @@ def run_scenario(sc: dict, drv: common.Driver | None) -> dict:
                 if not sc.get('no_sessions'):
                     follow_up(rig, model)
                 if model and not res['disagreement']:
-                    res['disagreement'] = diff_state('after second reload', impl_state(rig), model.state(), skip_procs=True)
+                    res['disagreement'] = diff_state('after second reload', impl_state(rig), model.state(), skip_procs=False)
                 if not again:
                     res['failures'].append((['failed-reload', fclass, 'next-reload-refused'], f'after the failed reload the corrected file is refused: {str(rig.cfg.error).strip()[:160]}'))
                 elif not adj_off:
